@@ -347,10 +347,14 @@ messageTypeSwitching:
 		err := m.SaveSession()
 		check(err)
 
+		// only the request rejected by server must be repeated: all others are accepted (or will be rejected
+		// by their own bad_server_salt). waiter gets new channel on retry, so this one must be forgotten
 		m.mutex.Lock()
-		for _, k := range m.responseChannels.Keys() {
-			v, _ := m.responseChannels.Get(k)
-			verifGate("loop.notify", k)
+		badMsgID := int(message.BadMsgID)
+		if v, ok := m.responseChannels.Get(badMsgID); ok {
+			m.responseChannels.Delete(badMsgID)
+			m.expectedTypes.Delete(badMsgID)
+			verifGate("loop.notify", badMsgID)
 			v <- &errorSessionConfigsChanged{}
 		}
 		m.mutex.Unlock()
